@@ -44,6 +44,10 @@ structure RibSt where
   failedIds : List Nat := []
   implRefsOk : Bool := true
   partialFlush : Bool := false
+  /-- the RIB was created without its check function (`DisableRIBCheckFn`): the model does not
+  describe it, and the properties about resolution and references are not about it; the monitors
+  that need neither still speak -/
+  nocheck : Bool := false
   /-- the trace does not list the operations (concurrent runs): monitors that need them are off -/
   blind : Bool := false
   lastHooks : List HookEv := []
@@ -148,7 +152,7 @@ def handleDel (st : RibSt) (op : Op) (oks fails : List Nat) (fatal : Bool) : Rib
   -- C03 monitor on the verdict, judged on the implementation's own contents before the call: a
   -- DELETE of an installed group or next-hop that an installed entry refers to is refused; in every
   -- other case, including a key that is not installed, a well-formed DELETE succeeds
-  let st := if st.blind || !st.entsFresh then st else
+  let st := if st.blind || !st.entsFresh || st.nocheck then st else
     match referrersOf st.implEnts op.ni op.key with
     | some n =>
       let installed := Map.has st.implEnts (op.ni, op.key)
@@ -367,6 +371,11 @@ def ribLine (st : RibSt) (ts : List Tok) : RibSt :=
       match args with
       | [d, f] => match strOf d with
         | some d => { st with model := Rib.new d (tokStr f == "fwd=1") }
+        | none => bad st
+      | [d, f, c] => match strOf d with
+        | some d =>
+          let st := { st with model := Rib.new d (tokStr f == "fwd=1") }
+          if tokStr c == "check=0" then (({ st with nocheck := true, diverged := true, partialFlush := true }).covr "rib.nocheck") else st
         | none => bad st
       | _ => bad st
     else if c = "rib.sethook" then
